@@ -195,3 +195,27 @@ func (p *RawPeer) Close() {
 }
 
 var ErrInjected = errors.New("injected transport failure")
+
+// Halves presents this end as a separate reader and writer, each with its own Close, the way a stdio-like
+// transport holds them (mcp.IOTransport with distinct Reader and Writer). Closing the reader closes only the
+// incoming direction, closing the writer only the outgoing one (which also releases a stalled Write). Each
+// Close returns the given error after doing its work (a descriptor some other owner has closed already).
+func (e *End) Halves(readCloseErr, writeCloseErr error) (io.ReadCloser, io.WriteCloser) {
+	return &readHalf{e, readCloseErr}, &writeHalf{e, writeCloseErr}
+}
+
+type readHalf struct {
+	e   *End
+	err error
+}
+
+func (r *readHalf) Read(p []byte) (int, error) { return r.e.Read(p) }
+func (r *readHalf) Close() error               { r.e.r.closeRead(io.ErrClosedPipe); return r.err }
+
+type writeHalf struct {
+	e   *End
+	err error
+}
+
+func (w *writeHalf) Write(p []byte) (int, error) { return w.e.Write(p) }
+func (w *writeHalf) Close() error                { w.e.w.closeWrite(); return w.err }
